@@ -122,8 +122,109 @@ def _work(args):
     return out, n
 
 
+ORDER_EXTRA = [
+    "{{ D|tojson }}", "{{ D|tojson(indent=2) }}", "{{ L|tojson(2) }}|{{ L|tojson }}", "{{ D|tojson(indent=none) }}",
+    "{% set c = cycler(1, 2) %}{{ c.next() }}{{ c.next() }}{{ c.current }}", "{% set j = joiner(s) %}{{ j() }}{{ j() }}",
+    "{% set ns = namespace(a=1) %}{% set ns.a = ns.a + 1 %}{{ ns.a }}", "{{ lipsum(1, false, 2, 3)|length > 0 }}", "{{ dict(a=s)|dictsort }}",
+    "{{ s|truncate(3) }}{{ s|truncate(3, leeway=0) }}", "{{ url|urlize }}{{ url|urlize(rel='x') }}{{ url|urlize(target='t') }}",
+    "{{ L|sort }}{{ L|sort(reverse=true) }}{{ L }}", "{{ L|reverse|list }}{{ L }}", "{{ D|dictsort(reverse=true) }}{{ D|items|list }}",
+    "{{ D|xmlattr }}{{ D|xmlattr(false) }}", "{{ LL|sum(start=[]) }}{{ LL }}", "{{ rows|sort(attribute='n') }}{{ rows }}",
+    "{{ rows|groupby('n')|list|length }}{{ rows|map(attribute='n')|list }}", "{{ L|join(s) }}{{ L|join }}{{ L }}",
+    "{{ s|indent(2) }}{{ s|indent(s2, true) }}", "{{ s|wordwrap(2) }}{{ s|wordwrap(2, wrapstring=s2) }}", "{{ n|filesizeformat }}{{ n|filesizeformat(true) }}",
+]
+
+
+def _order_work(args):
+    """Order independence: every program rendered on a fresh environment, then all of them in a seeded order and again
+    in reverse on ONE environment, then on another fresh environment created afterwards: always the same result; the
+    library's module-level defaults and the environment's policies / filters / tests / globals are unchanged."""
+    core.use_repo()
+    import re
+    import jinja2
+    from jinja2 import defaults
+    from markupsafe import Markup
+    from . import c15_scan as sc
+    progs, auto, seed = args
+
+    class O:
+        x = sc.S1
+        def __str__(self): return sc.S1
+
+    def data():
+        rows = [{"k": "b", "n": 2}, {"k": "A", "n": 1}, {"n": 3}, {"k": "a", "n": 1}]
+        return dict(s=sc.S1, s2=sc.S2, L=[sc.S1, sc.S2, "q<q"], D={sc.S1: sc.S2, "k": sc.S1}, m=Markup("ok"), n=3, LL=[[sc.S1], [sc.S2, sc.S1]],
+                    url="http://a.example/?q=" + sc.S1, O=O(), loopdata=sc.S1, rows=rows, u=jinja2.Undefined(name="u"))
+
+    def mk():
+        return jinja2.Environment(autoescape=auto, extensions=["jinja2.ext.do", "jinja2.ext.loopcontrols"])
+
+    def render(env, p):
+        try:
+            return ("ok", env.from_string(p["src"]).render(**data()))
+        except Exception as e:  # noqa
+            return ("err", type(e).__name__)
+
+    def state(env):
+        return {"DEFAULT_POLICIES": copy.deepcopy(defaults.DEFAULT_POLICIES), "DEFAULT_NAMESPACE": sorted(defaults.DEFAULT_NAMESPACE),
+                "DEFAULT_FILTERS": sorted(defaults.DEFAULT_FILTERS), "DEFAULT_TESTS": sorted(defaults.DEFAULT_TESTS),
+                "policies": copy.deepcopy(env.policies), "filters": sorted(env.filters), "tests": sorted(env.tests),
+                "globals": sorted(env.globals)}
+
+    skip = lambda p, r: "random" in p["src"] or "pprint" in p["src"] or re.search(r"(?i) at 0x[0-9a-f]+", str(r)) is not None
+    fresh = {}
+    for p in progs:
+        fresh[p["id"]] = render(mk(), p)
+    shared = mk()
+    before = state(shared)
+    out, n = [], 0
+    order = list(progs)
+    random.Random(seed).shuffle(order)
+    for label, seq in (("one environment, seeded order", order), ("one environment, reverse order", order[::-1])):
+        for p in seq:
+            r = render(shared, p)
+            n += 1
+            if r != fresh[p["id"]] and not skip(p, (r, fresh[p["id"]])):
+                out.append({"src": p["src"], "auto": auto, "where": label, "fresh": fresh[p["id"]], "got": r})
+    after = state(shared)
+    if after != before:
+        bad = [k for k in before if before[k] != after[k]]
+        out.append({"src": "(all programs)", "auto": auto, "where": "engine state", "fresh": str({k: before[k] for k in bad})[:300],
+                    "got": str({k: after[k] for k in bad})[:300], "mutated": True})
+    late = mk()
+    for p in progs:
+        r = render(late, p)
+        n += 1
+        if r != fresh[p["id"]] and not skip(p, (r, fresh[p["id"]])):
+            out.append({"src": p["src"], "auto": auto, "where": "a fresh environment created after the other renders", "fresh": fresh[p["id"]], "got": r})
+    return out, n
+
+
+def order_independence(ck):
+    core.use_repo()
+    import jinja2
+    from . import c15_scan as sc
+    progs = sc.programs(random.Random(ck.seed + 2900), jinja2.Environment().filters, "quick")
+    progs += [{"id": len(progs) + i + 1, "src": s_, "mode": "html", "tag": "extra"} for i, s_ in enumerate(ORDER_EXTRA)]
+    for i, p in enumerate(progs):
+        p["id"] = i + 1
+    jobs = [(chunk, auto, ck.seed * 7 + ci) for auto in (False, True) for ci, chunk in enumerate(core.chunks(progs, 400))]
+    total = 0
+    with ProcessPoolExecutor(max_workers=12) as ex:
+        for mism, n in ex.map(_order_work, jobs):
+            total += n
+            for m in mism:
+                ck.violation({"kind": "order", **{k: str(v) for k, v in m.items()}},
+                             f"[{m['where']}, autoescape={m['auto']}] {m['src']!r}: a fresh environment gives {str(m['fresh'])[:140]}, "
+                             f"here {str(m['got'])[:140]}",
+                             {"kind": "input-mutated" if m.get("mutated") else "render-depends-on-earlier-renders"})
+    ck.traces += total
+    ck.extra["order_independence_renders"] = total
+    ck.extra["order_independence_programs"] = len(progs)
+
+
 def run(ck):
     quick = ck.tier == "quick"
+    order_independence(ck)
     cases = jgen.corpus(ck.seed + 29, *((90, 50, 110, 120) if quick else (2500, 1200, 2500, 2500)))
     cases += jgen.aiter_cases(ck.seed + 2929, 40 if quick else 800, start_id=len(cases) + 1)
     for c in cases:
@@ -152,6 +253,8 @@ def run(ck):
 
 
 def replay(ck, rec):
+    if rec["case"].get("kind") == "order":
+        return order_independence(ck)
     case = rec["case"]["case"]
     obs, r = jrun.spec_results("C29", [case], name="replay", workers=2)
     by = {}
